@@ -33,9 +33,12 @@ Section Lin.
     t_pc th = 0 \/
     (t_pc th = 1 /\ fst (t_reg th) <= fst cell /\ (fst (t_reg th) = fst cell -> t_reg th = cell)).
 
-  Definition Inv (v0 : V) (all : list O) (st : mstate) (tr : list O) : Prop :=
-    snd (m_cell st) = fold_left apply_op tr v0
-    /\ Permutation (tr ++ pending (m_threads st)) all
+  Notation untag := (untag O).
+  Notation ops_of := (ops_of O).
+
+  Definition Inv (v0 : V) (all : list O) (st : mstate) (tr : list (nat * O)) : Prop :=
+    snd (m_cell st) = fold_left apply_op (untag tr) v0
+    /\ Permutation (untag tr ++ pending (m_threads st)) all
     /\ fst (m_cell st) < m_next st
     /\ Forall (thread_ok (m_cell st)) (m_threads st).
 
@@ -77,18 +80,21 @@ Section Lin.
   Proof. intros tr v o. rewrite fold_left_app. reflexivity. Qed.
 
   (* ---------------- one step ---------------- *)
+  Lemma untag_snoc : forall tr tid o, untag (tr ++ [(tid, o)]) = untag tr ++ [o].
+  Proof. intros. unfold LogConc.untag. rewrite map_app. reflexivity. Qed.
+
   Lemma Inv_step : forall v0 all st tr tid st1 ev,
-    Inv v0 all st tr -> step st tid = (st1, ev) -> Inv v0 all st1 (tr ++ ev_list O ev).
+    Inv v0 all st tr -> step st tid = (st1, ev) -> Inv v0 all st1 (tr ++ ev).
   Proof.
     intros v0 all st tr tid st1 ev (Hcell & Hperm & Hnext & Hok) Hstep.
     unfold LogConc.step in Hstep.
     destruct (nth_error (m_threads st) tid) as [th|] eqn:Hth.
-    2:{ inversion Hstep; subst. unfold Inv. cbn [m_cell m_next m_threads ev_list]. rewrite app_nil_r. repeat split; assumption. }
+    2:{ inversion Hstep; subst. unfold Inv. cbn [m_cell m_next m_threads tag]. rewrite app_nil_r. repeat split; assumption. }
     pose proof (nth_error_Forall _ _ _ _ Hok Hth) as Hthok.
     unfold LogConc.step_thread in Hstep.
     destruct (t_ops th) as [|o rest] eqn:Hops.
     { (* returned thread: stutter *)
-      inversion Hstep; subst. unfold Inv. cbn [m_cell m_next m_threads ev_list]. rewrite app_nil_r.
+      inversion Hstep; subst. unfold Inv. cbn [m_cell m_next m_threads tag]. rewrite app_nil_r.
       repeat split; try assumption.
       - rewrite (pending_same _ _ th th Hth eq_refl). exact Hperm.
       - apply set_nth_Forall; assumption. }
@@ -96,7 +102,7 @@ Section Lin.
     destruct Hthok as [Hpc | (Hpc & Hle & Heq)]; rewrite Hpc in Hstep; cbn [nth_error] in Hstep.
     - (* Load *)
       unfold advance in Hstep. rewrite Hprog in Hstep. cbn in Hstep.
-      inversion Hstep; subst. unfold Inv. cbn [m_cell m_next m_threads ev_list]. rewrite app_nil_r.
+      inversion Hstep; subst. unfold Inv. cbn [m_cell m_next m_threads tag]. rewrite app_nil_r.
       repeat split; try assumption.
       + erewrite pending_same; [exact Hperm | exact Hth | cbn; symmetry; exact Hops].
       + apply set_nth_Forall; [assumption|]. right. cbn. repeat split; auto.
@@ -106,22 +112,22 @@ Section Lin.
         unfold new_ptr, advance in Hstep. rewrite Hprog in Hstep. cbn [length Nat.leb] in Hstep.
         destruct (ident (fn_of o) o) eqn:Hid.
         * (* the derived pointer is the loaded one: the cell does not change *)
-          inversion Hstep; subst. unfold Inv. cbn [m_cell m_next m_threads ev_list].
+          inversion Hstep; subst. unfold Inv. cbn [m_cell m_next m_threads tag].
           assert (Hsame : (fst (t_reg th), pure (fn_of o) o (snd (t_reg th))) = m_cell st).
           { rewrite Hident by exact Hid. rewrite <- Heq. destruct (t_reg th); reflexivity. }
           repeat split.
-          -- cbn. rewrite fold_left_snoc, <- Hcell, Heq. reflexivity.
-          -- rewrite <- app_assoc. cbn.
+          -- rewrite untag_snoc, fold_left_snoc, <- Hcell, Heq. reflexivity.
+          -- rewrite untag_snoc, <- app_assoc. cbn.
              eapply Permutation_trans; [|exact Hperm].
              apply Permutation_app_head. apply Permutation_sym.
              eapply pending_pop; [exact Hth | exact Hops | reflexivity].
           -- rewrite Hsame. exact Hnext.
           -- rewrite Hsame. apply set_nth_Forall; [assumption|]. left. reflexivity.
         * (* fresh pointer *)
-          inversion Hstep; subst. unfold Inv. cbn [m_cell m_next m_threads ev_list].
+          inversion Hstep; subst. unfold Inv. cbn [m_cell m_next m_threads tag].
           repeat split.
-          -- cbn. rewrite fold_left_snoc, <- Hcell, Heq. reflexivity.
-          -- rewrite <- app_assoc. cbn.
+          -- rewrite untag_snoc, fold_left_snoc, <- Hcell, Heq. reflexivity.
+          -- rewrite untag_snoc, <- app_assoc. cbn.
              eapply Permutation_trans; [|exact Hperm].
              apply Permutation_app_head. apply Permutation_sym.
              eapply pending_pop; [exact Hth | exact Hops | reflexivity].
@@ -131,7 +137,7 @@ Section Lin.
              intros a [Ha | (Ha & Hale & Haeq)]; [left; exact Ha|].
              right. cbn. repeat split; [exact Ha | lia | intros E; lia].
       + (* CAS failed: back to the Load *)
-        inversion Hstep; subst. unfold Inv. cbn [m_cell m_next m_threads ev_list]. rewrite app_nil_r.
+        inversion Hstep; subst. unfold Inv. cbn [m_cell m_next m_threads tag]. rewrite app_nil_r.
         repeat split; try assumption.
         * erewrite pending_same; [exact Hperm | exact Hth | cbn; symmetry; exact Hops].
         * apply set_nth_Forall; [assumption|]. left. reflexivity.
@@ -163,25 +169,148 @@ Section Lin.
     cbn. apply IH. exact Hl.
   Qed.
 
-  (* at every moment the cell is the sequential application of the linearised operations,
-     and nothing is linearised that was not requested, nor twice *)
-  Theorem run_cell : forall v0 progs sched st tr,
-    run (init_state O V v0 progs) sched = (st, tr) ->
-    snd (m_cell st) = fold_left apply_op tr v0
-    /\ Permutation (tr ++ pending (m_threads st)) (concat progs).
+  (* ---------------- program order ---------------- *)
+  Definition t_ops_of (tid : nat) (ths : list thread) : list O :=
+    match nth_error ths tid with Some th => t_ops th | None => [] end.
+
+  (* what a thread has had linearised, followed by what it still has to do, is its program *)
+  Definition Ord (progs : list (list O)) (st : mstate) (tr : list (nat * O)) : Prop :=
+    forall t, ops_of t tr ++ t_ops_of t (m_threads st) = nth t progs [].
+
+  Lemma nth_error_set_nth_same : forall {A} (l : list A) n x y,
+    nth_error l n = Some x -> nth_error (set_nth n y l) n = Some y.
   Proof.
-    intros v0 progs sched st tr Hrun.
-    pose proof (Inv_run sched v0 (concat progs) _ [] st tr (Inv_init v0 progs) Hrun) as (H1 & H2 & _).
-    cbn in H1, H2. split; assumption.
+    intros A l. induction l as [|a l IH]; intros [|n] x y H; cbn in *; try discriminate; [reflexivity|].
+    eapply IH. eassumption.
   Qed.
 
-  (* once all threads have returned, every operation has taken effect exactly once *)
+  Lemma nth_error_set_nth_other : forall {A} (l : list A) n m y,
+    n <> m -> nth_error (set_nth n y l) m = nth_error l m.
+  Proof.
+    intros A l. induction l as [|a l IH]; intros [|n] [|m] y H; cbn; try reflexivity; try congruence.
+    apply IH. congruence.
+  Qed.
+
+  Lemma ops_of_snoc_same : forall t tr o, ops_of t (tr ++ [(t, o)]) = ops_of t tr ++ [o].
+  Proof.
+    intros t tr o. unfold LogConc.ops_of. rewrite filter_app, map_app. cbn. rewrite Nat.eqb_refl. reflexivity.
+  Qed.
+
+  Lemma ops_of_snoc_other : forall t t' tr o, t' <> t -> ops_of t (tr ++ [(t', o)]) = ops_of t tr.
+  Proof.
+    intros t t' tr o H. unfold LogConc.ops_of. rewrite filter_app, map_app. cbn.
+    apply Nat.eqb_neq in H. rewrite H. cbn. apply app_nil_r.
+  Qed.
+
+  (* a step that keeps the operation list of the scheduled thread and linearises nothing *)
+  Lemma Ord_keep : forall progs ths cell next tr tid th th' c n,
+    Ord progs {| m_cell := cell; m_next := next; m_threads := ths |} tr ->
+    nth_error ths tid = Some th -> t_ops th' = t_ops th ->
+    Ord progs {| m_cell := c; m_next := n; m_threads := set_nth tid th' ths |} tr.
+  Proof.
+    intros progs ths cell next tr tid th th' c n HO Hth Hops t. specialize (HO t).
+    cbn [m_threads] in *. unfold t_ops_of in *.
+    destruct (Nat.eq_dec tid t) as [->|Hne].
+    - rewrite (nth_error_set_nth_same _ _ _ th' Hth). rewrite Hth in HO. rewrite Hops. exact HO.
+    - rewrite nth_error_set_nth_other by exact Hne. exact HO.
+  Qed.
+
+  (* a step that linearises the head operation of the scheduled thread and pops it *)
+  Lemma Ord_pop : forall progs ths cell next tr tid th th' o rest c n,
+    Ord progs {| m_cell := cell; m_next := next; m_threads := ths |} tr ->
+    nth_error ths tid = Some th -> t_ops th = o :: rest -> t_ops th' = rest ->
+    Ord progs {| m_cell := c; m_next := n; m_threads := set_nth tid th' ths |} (tr ++ [(tid, o)]).
+  Proof.
+    intros progs ths cell next tr tid th th' o rest c n HO Hth Ho Hr t. specialize (HO t).
+    cbn [m_threads] in *. unfold t_ops_of in *.
+    destruct (Nat.eq_dec tid t) as [->|Hne].
+    - rewrite (nth_error_set_nth_same _ _ _ th' Hth), ops_of_snoc_same, Hr, <- app_assoc. cbn.
+      rewrite Hth, Ho in HO. exact HO.
+    - rewrite nth_error_set_nth_other by exact Hne. rewrite ops_of_snoc_other by exact Hne. exact HO.
+  Qed.
+
+  Lemma Ord_step : forall v0 all progs st tr tid st1 ev,
+    Inv v0 all st tr -> Ord progs st tr -> step st tid = (st1, ev) -> Ord progs st1 (tr ++ ev).
+  Proof.
+    intros v0 all progs st tr tid st1 ev (_ & _ & _ & Hok) HO Hstep.
+    destruct st as [cell next ths]. cbn [m_cell m_next m_threads] in *.
+    unfold LogConc.step in Hstep. cbn [m_cell m_next m_threads] in Hstep.
+    destruct (nth_error ths tid) as [th|] eqn:Hth.
+    2:{ inversion Hstep; subst. rewrite app_nil_r. exact HO. }
+    pose proof (nth_error_Forall _ _ _ _ Hok Hth) as Hthok.
+    unfold LogConc.step_thread in Hstep.
+    destruct (t_ops th) as [|o rest] eqn:Hops.
+    { inversion Hstep; subst. cbn [tag]. rewrite app_nil_r.
+      eapply Ord_keep; [exact HO | exact Hth | reflexivity]. }
+    rewrite Hprog in Hstep.
+    destruct Hthok as [Hpc | (Hpc & _ & _)]; rewrite Hpc in Hstep; cbn [nth_error] in Hstep.
+    - unfold advance in Hstep. rewrite Hprog in Hstep. cbn in Hstep.
+      inversion Hstep; subst. rewrite app_nil_r.
+      eapply Ord_keep; [exact HO | exact Hth | cbn; symmetry; exact Hops].
+    - destruct (fst cell =? fst (t_reg th)).
+      + unfold new_ptr, advance in Hstep. rewrite Hprog in Hstep. cbn [length Nat.leb] in Hstep.
+        destruct (ident (fn_of o) o); inversion Hstep; subst; cbn [tag];
+          (eapply Ord_pop; [exact HO | exact Hth | exact Hops | reflexivity]).
+      + inversion Hstep; subst. cbn [tag]. rewrite app_nil_r.
+        eapply Ord_keep; [exact HO | exact Hth | cbn; symmetry; exact Hops].
+  Qed.
+
+  Lemma Inv_Ord_run : forall sched v0 all progs st tr0 st2 tr,
+    Inv v0 all st tr0 -> Ord progs st tr0 -> run st sched = (st2, tr) ->
+    Inv v0 all st2 (tr0 ++ tr) /\ Ord progs st2 (tr0 ++ tr).
+  Proof.
+    induction sched as [|t sched IH]; intros v0 all progs st tr0 st2 tr HI HO Hrun; cbn in Hrun.
+    - inversion Hrun; subst. rewrite app_nil_r. split; assumption.
+    - destruct (step st t) as [st1 ev] eqn:Hs.
+      destruct (run st1 sched) as [st3 tr3] eqn:Hr.
+      inversion Hrun; subst.
+      rewrite app_assoc. eapply IH; [| |exact Hr].
+      + eapply Inv_step; eassumption.
+      + eapply Ord_step; eassumption.
+  Qed.
+
+  Lemma Ord_init : forall v0 progs, Ord progs (init_state O V v0 progs) [].
+  Proof.
+    intros v0 progs t. unfold init_state, t_ops_of. cbn.
+    rewrite nth_error_map. revert t. induction progs as [|p progs IH]; intros [|t]; cbn; try reflexivity.
+    apply IH.
+  Qed.
+
+  Lemma all_returned_t_ops : forall st t, all_returned O V st = true -> t_ops_of t (m_threads st) = [].
+  Proof.
+    intros st t. unfold all_returned, t_ops_of. revert t.
+    induction (m_threads st) as [|a l IH]; intros [|t] H; cbn in *; try reflexivity;
+      apply andb_true_iff in H as [Ha Hl].
+    - destruct (t_ops a); [reflexivity | discriminate].
+    - apply IH. exact Hl.
+  Qed.
+
+  (* at every moment the cell is the sequential application of the linearised operations,
+     nothing is linearised that was not requested, nor twice, and every thread's operations
+     are linearised in its program order *)
+  Theorem run_cell : forall v0 progs sched st tr,
+    run (init_state O V v0 progs) sched = (st, tr) ->
+    snd (m_cell st) = fold_left apply_op (untag tr) v0
+    /\ Permutation (untag tr ++ pending (m_threads st)) (concat progs)
+    /\ forall t, ops_of t tr ++ t_ops_of t (m_threads st) = nth t progs [].
+  Proof.
+    intros v0 progs sched st tr Hrun.
+    destruct (Inv_Ord_run sched v0 (concat progs) progs _ [] st tr (Inv_init v0 progs)
+                (Ord_init v0 progs) Hrun) as [(H1 & H2 & _) H3].
+    cbn in H1, H2, H3. repeat split; assumption.
+  Qed.
+
+  (* once all threads have returned, every operation has taken effect exactly once, each
+     thread's in its own order *)
   Theorem run_linearisable : forall v0 progs sched st tr,
     run (init_state O V v0 progs) sched = (st, tr) -> all_returned O V st = true ->
-    Permutation tr (concat progs) /\ snd (m_cell st) = fold_left apply_op tr v0.
+    Permutation (untag tr) (concat progs)
+    /\ snd (m_cell st) = fold_left apply_op (untag tr) v0
+    /\ forall t, ops_of t tr = nth t progs [].
   Proof.
     intros v0 progs sched st tr Hrun Hret.
-    destruct (run_cell v0 progs sched st tr Hrun) as [H1 H2].
-    rewrite (all_returned_pending st Hret), app_nil_r in H2. split; assumption.
+    destruct (run_cell v0 progs sched st tr Hrun) as (H1 & H2 & H3).
+    rewrite (all_returned_pending st Hret), app_nil_r in H2. repeat split; try assumption.
+    intros t. specialize (H3 t). rewrite (all_returned_t_ops st t Hret), app_nil_r in H3. exact H3.
   Qed.
 End Lin.
